@@ -364,6 +364,12 @@ type HsResult struct {
 }
 
 type Pair struct {
+	// OnHsDone, if set, runs on the handshake goroutine of an endpoint right after its
+	// HandshakeContext returned (what an application does first with a fresh connection)
+	OnHsDone func(ep string, err error)
+	// Early are payloads written from OnHsDone, possibly while the peer is still handshaking and
+	// faults still flow: they may be lost, never altered or duplicated
+	Early    map[string]bool
 	S        *Sim
 	Net      *SimNet
 	CSpec    EpSpec
@@ -445,6 +451,9 @@ func (p *Pair) StartHandshakes(timeout time.Duration) {
 		err := p.Server.HandshakeContext(sctx)
 		seq := p.S.Record("op-ret", p.SName, fmt.Sprintf("HandshakeContext err=%v", err), nil)
 		p.SHs = HsResult{Done: true, Err: err, At: p.S.Now(), Seq: seq}
+		if p.OnHsDone != nil {
+			p.OnHsDone(p.SName, err)
+		}
 	})
 }
 
@@ -454,6 +463,9 @@ func (p *Pair) startClientHandshake(cctx context.Context) {
 		err := p.Client.HandshakeContext(cctx)
 		seq := p.S.Record("op-ret", p.CName, fmt.Sprintf("HandshakeContext err=%v", err), nil)
 		p.CHs = HsResult{Done: true, Err: err, At: p.S.Now(), Seq: seq}
+		if p.OnHsDone != nil {
+			p.OnHsDone(p.CName, err)
+		}
 	})
 }
 
